@@ -363,6 +363,95 @@ template <class S> void do_resize_blank(S& s, std::size_t n, std::true_type) { s
 template <class S> void do_resize_blank(S& s, std::size_t n, std::false_type) { s.resize(n); }
 
 // =========================================================================================================
+// Arguments that alias the string itself: the string as its own operand, sub-ranges of its own buffer given by pointer,
+// by (self, pos, n) and by its own iterators. std::basic_string defines all of these calls (the source is read as it was
+// before the call); the same calls are made on the model.
+static void build_alias_ops(Ex& ex)
+{
+    const std::vector<std::size_t> sp = CFG_LARGE ? std::vector<std::size_t>{0, 1, 2, N / 2, N - 1, N} : sub_pos(N);
+    std::vector<std::size_t> sc = CFG_LARGE ? std::vector<std::size_t>{0, 1, 2, N / 2, N} : sub_pos(N);
+    std::vector<std::size_t> scn(sc); scn.push_back(npos);
+    const std::vector<std::size_t> ip = CFG_LARGE ? std::vector<std::size_t>{0, 1, N / 2, N} : sub_pos(N);
+    add_op(ex, "op=(self)[alias]", "s=s", both(GEN(S& r = s; return self(s, s = r);)));
+    add_op(ex, "assign(self)[alias]", "assign(s)", both(GEN(return self(s, s.assign(s));)));
+    add_op(ex, "append(self)[alias]", "append(s)", both(GEN(return self(s, s.append(s));)));
+    add_op(ex, "+=(self)[alias]", "s+=s", both(GEN(return self(s, s += s);)));
+    add_op(ex, "swap(self)[alias]", "swap(s)", both(GEN(s.swap(s); return "ok";)));
+    for (std::size_t p : sp)
+    {
+        add_op(ex, "assign(self,pos)[alias]", "assign(s," + pn(p) + ")", both(GEN(return self(s, s.assign(s, p));)));
+        add_op(ex, "append(self,pos)[alias]", "append(s," + pn(p) + ")", both(GEN(return self(s, s.append(s, p));)));
+        add_op(ex, "assign(ptr)[alias]", "assign(c_str+" + pn(p) + ")", both(GEN(if (p > s.size()) return NA; return self(s, s.assign(s.c_str() + p));)));
+        add_op(ex, "op=(ptr)[alias]", "s=c_str+" + pn(p), both(GEN(if (p > s.size()) return NA; return self(s, s = s.c_str() + p);)));
+        add_op(ex, "append(ptr)[alias]", "append(c_str+" + pn(p) + ")", both(GEN(if (p > s.size()) return NA; return self(s, s.append(s.c_str() + p));)));
+        add_op(ex, "+=(ptr)[alias]", "s+=c_str+" + pn(p), both(GEN(if (p > s.size()) return NA; return self(s, s += s.c_str() + p);)));
+        for (std::size_t c : scn)
+        {
+            add_op(ex, "assign(self,pos,n)[alias]", "assign(s," + pn(p) + "," + pn(c) + ")", both(GEN(return self(s, s.assign(s, p, c));)));
+            add_op(ex, "append(self,pos,n)[alias]", "append(s," + pn(p) + "," + pn(c) + ")", both(GEN(return self(s, s.append(s, p, c));)));
+            if (c == npos) continue;
+            add_op(ex, "assign(ptr,n)[alias]", "assign(data+" + pn(p) + "," + pn(c) + ")", both(GEN(if (p > s.size() || c > s.size() - p) return NA; return self(s, s.assign(s.data() + p, c));)));
+            add_op(ex, "append(ptr,n)[alias]", "append(data+" + pn(p) + "," + pn(c) + ")", both(GEN(if (p > s.size() || c > s.size() - p) return NA; return self(s, s.append(s.data() + p, c));)));
+        }
+        for (std::size_t q : sp)
+        {
+            if (q < p) continue;
+            add_op(ex, "assign(first,last)[alias]", "assign(begin+" + pn(p) + ",begin+" + pn(q) + ")", both(GEN(if (q > s.size()) return NA; return self(s, s.assign(s.begin() + std::ptrdiff_t(p), s.begin() + std::ptrdiff_t(q)));)));
+            add_op(ex, "append(first,last)[alias]", "append(begin+" + pn(p) + ",begin+" + pn(q) + ")", both(GEN(if (q > s.size()) return NA; return self(s, s.append(s.begin() + std::ptrdiff_t(p), s.begin() + std::ptrdiff_t(q)));)));
+        }
+    }
+    for (std::size_t i : ip)
+    {
+        add_op(ex, "insert(idx,self)[alias]", "insert(" + pn(i) + ",s)", both(GEN(return self(s, s.insert(i, s));)));
+        for (std::size_t p : sp)
+        {
+            add_op(ex, "insert(idx,ptr)[alias]", "insert(" + pn(i) + ",c_str+" + pn(p) + ")", both(GEN(if (p > s.size()) return NA; return self(s, s.insert(i, s.c_str() + p));)));
+            for (std::size_t c : scn)
+            {
+                add_op(ex, "insert(idx,self,pos,n)[alias]", "insert(" + pn(i) + ",s," + pn(p) + "," + pn(c) + ")", both(GEN(return self(s, s.insert(i, s, p, c));)));
+                if (c == npos) continue;
+                add_op(ex, "insert(idx,ptr,n)[alias]", "insert(" + pn(i) + ",data+" + pn(p) + "," + pn(c) + ")", both(GEN(if (p > s.size() || c > s.size() - p) return NA; return self(s, s.insert(i, s.data() + p, c));)));
+            }
+            for (std::size_t q : sp)
+            {
+                if (q < p) continue;
+                add_op(ex, "insert(it,first,last)[alias]", "insert(begin+" + pn(i) + ",begin+" + pn(p) + ",begin+" + pn(q) + ")",
+                       both(GEN(if (i > s.size() || q > s.size()) return NA; return iter(s, s.insert(s.begin() + std::ptrdiff_t(i), s.begin() + std::ptrdiff_t(p), s.begin() + std::ptrdiff_t(q)));)));
+            }
+        }
+        for (std::size_t n : scn)
+        {
+            if (CFG_LARGE && !(n <= 1 || n == npos)) continue;
+            if (!(n <= 1 || n == N || n == npos)) continue;   // erased counts: none, one, everything, "to the end"
+            add_op(ex, "replace(pos,n,self)[alias]", "replace(" + pn(i) + "," + pn(n) + ",s)", both(GEN(return self(s, s.replace(i, n, s));)));
+            for (std::size_t p : sp)
+            {
+                add_op(ex, "replace(pos,n,ptr)[alias]", "replace(" + pn(i) + "," + pn(n) + ",c_str+" + pn(p) + ")", both(GEN(if (p > s.size()) return NA; return self(s, s.replace(i, n, s.c_str() + p));)));
+                for (std::size_t c : scn)
+                {
+                    if (CFG_LARGE && !(c <= 1 || c == npos || c == N / 2)) continue;
+                    add_op(ex, "replace(pos,n,self,pos2,n2)[alias]", "replace(" + pn(i) + "," + pn(n) + ",s," + pn(p) + "," + pn(c) + ")", both(GEN(return self(s, s.replace(i, n, s, p, c));)));
+                    if (c == npos) continue;
+                    add_op(ex, "replace(pos,n,ptr,n2)[alias]", "replace(" + pn(i) + "," + pn(n) + ",data+" + pn(p) + "," + pn(c) + ")", both(GEN(if (p > s.size() || c > s.size() - p) return NA; return self(s, s.replace(i, n, s.data() + p, c));)));
+                }
+            }
+        }
+        for (std::size_t j : ip)
+        {
+            if (j < i) continue;
+            add_op(ex, "replace(it,it,self)[alias]", "replace(begin+" + pn(i) + ",begin+" + pn(j) + ",s)", both(GEN(if (j > s.size()) return NA; return self(s, s.replace(s.begin() + std::ptrdiff_t(i), s.begin() + std::ptrdiff_t(j), s));)));
+            for (std::size_t p : sp) for (std::size_t q : sp)
+            {
+                if (q < p) continue;
+                if (CFG_LARGE && !(q - p <= 1 || q == N || q - p == N / 2)) continue;
+                add_op(ex, "replace(it,it,first,last)[alias]", "replace(begin+" + pn(i) + ",begin+" + pn(j) + ",begin+" + pn(p) + ",begin+" + pn(q) + ")",
+                       both(GEN(if (j > s.size() || q > s.size()) return NA; return self(s, s.replace(s.begin() + std::ptrdiff_t(i), s.begin() + std::ptrdiff_t(j), s.begin() + std::ptrdiff_t(p), s.begin() + std::ptrdiff_t(q)));)));
+            }
+        }
+    }
+}
+
+// =========================================================================================================
 static void build_ops(Ex& ex)
 {
     // ----------------------------------------------------------------- constructors
@@ -581,6 +670,7 @@ static void build_ops(Ex& ex)
     for (std::size_t n : CNT) add_op(ex, "resize(n)", "resize(" + pn(n) + ")", both(GEN(do_resize_blank(s, n, is_model<S>()); return "ok";)));
     add_op(ex, "copy-self", "s=S(s)", both(GEN(S c(s); s = c; return "ok";)));
     add_op(ex, "move-self", "s=S(move(s))", both(GEN(S c(std::move(s)); s = std::move(c); return "ok";)));
+    build_alias_ops(ex);
 }
 
 // streams exist for char only (they go through std::string)
